@@ -1,5 +1,6 @@
 from common import *
 from c12 import replay_one
+from l2part import run_l2_part
 
 
 def run(tier, replay=None):
@@ -16,11 +17,16 @@ def run(tier, replay=None):
                       "fmt.Sprintf: contract model in the engine (ext.go), the real fmt in the native replay"]
     rp = NativeReplayer(mod, "main", hp)
     if replay:
+        j = json.load(open(replay))
+        if j.get("harness", "").startswith("Harness_C11L2_"):
+            return replay_one(ck, run_l2_part(Check("C11", tier, "model_checking"), "C11", "c11", "^$", {}, tier), replay, {})
         return replay_one(ck, rp, replay, env)
     res = run_symgo(mod, hp, "main", "^Harness_C11_", steps=2000000, env=env, maxpaths=1000000,
                     timeout=300 if tier == "quick" else 3000)
     ck.add_run(res)
     ck.handle_violations(res, rp, env=env, timeout=30, per_key=3)
+    # end-to-end: literal programs (incl. multi-byte UTF-8) through the real fc
+    run_l2_part(ck, "C11", "c11", "^Harness_C11L2_", {}, tier)
     if tier == "thorough":
         cross_solver(ck, mod, hp, "main", "^Harness_C11_(String|Raw)$", env={"VERIF_N": "3"})
     return ck.finish()
